@@ -31,6 +31,8 @@ index, so a case replays alone):
  valid      <count> grammar-generated statements of the fragment: UNION chains, parenthesised
             first operands, subqueries nested to depth 3 (expression and FROM position), dotted
             names, function calls, aliases (AS / implicit / keyword spellings) in every position.
+ ends       EXHAUSTIVE: every keyword as the last word of a select list / alias position / ORDER BY / GROUP BY list / table
+            alias / dotted name, followed by nothing, `;`, `;;`, `; SELECT 1`, a closing parenthesis (two embeddings) or UNION ALL.
  malformed  about 2*<count> token-level mutants of `valid`-style statements: truncation after
             EVERY token of the first <count>/20 base statements, and delete / duplicate / swap /
             replace-by-stray / insert-stray (pool of ~110 spellings) / drop one parenthesis /
@@ -411,6 +413,21 @@ def all_cases(seed, count):
                 elif ctx == 2:
                     sel = g.select(0, mask=0) + ["UNION", "ALL"] + sel
                 cases.append(("clauses", render(sel, rng)))
+    # ends: EXHAUSTIVE over keyword x list position x what follows.  A word at the end of a list (after a comma, as an implicit alias,
+    # after AS, as the last ORDER BY / GROUP BY element) is read by looking at the NEXT token: end of input, `;`, `)` and the start of
+    # another clause must all be treated as the same "nothing follows" (C05 semicolon clause, C06 delimiter respect, C07 embedding)
+    pres = [["SELECT", "a", ","], ["SELECT", "a"], ["SELECT", "a", "AS"], ["SELECT", "a", "FROM", "t", "ORDER", "BY", "a", ","],
+            ["SELECT", "a", "FROM", "t", "GROUP", "BY", "a", ","], ["SELECT", "a", "FROM", "t"], ["SELECT", "t", "."]]
+    for _kn, kw in kws:
+        for pi, pre in enumerate(pres):
+            rng = Rng(seed, "ends", kw, pi)
+            word = kw if rng.below(2) else kw.lower()
+            body = pre + [word]
+            for term in ([], [";"], [";", ";"], [";", "SELECT", "1"]):
+                cases.append(("ends", render(body + term, rng)))
+            cases.append(("ends", render(["("] + body + [")"], rng)))
+            cases.append(("ends", render(["SELECT", "*", "FROM", "("] + body + [")"], rng)))
+            cases.append(("ends", render(body + ["UNION", "ALL", "SELECT", "1"], rng)))
     # valid
     bases = []
     for i in range(count):
@@ -522,7 +539,7 @@ def main():
             st["dis"] += 1
             bad.append((stream, sql, c, m))
     total_dis = 0
-    for stream in ("c17", "c17ctx", "clauses", "valid", "malformed"):
+    for stream in ("c17", "c17ctx", "clauses", "ends", "valid", "malformed"):
         st = stats.get(stream)
         if not st:
             continue
